@@ -400,6 +400,71 @@ var genScenarios = map[string]func(g *Gen) []scriptStep{
 			pullStep(sS0, 10), advStep(45 * time.Second), pullStep(sS0, 10),
 		}
 	},
+	// a nack naming the same delivery twice: one reschedule / one forward, not two (C06)
+	"nack-duplicate-id": func(g *Gen) []scriptStep {
+		twice := func(g *Gen, d *Dump, vnow int64) Action {
+			var ids []string
+			for _, x := range d.Dels {
+				if x.Completed == nil && x.Attempts > 0 {
+					ids = append(ids, x.ID.String(), x.ID.String())
+				}
+			}
+			return Action{Op: &Op{Kind: "StreamAckNack", Nacks: ids}}
+		}
+		return []scriptStep{
+			opStep(&Op{Kind: "CreateTopic", Name: sT0}), opStep(&Op{Kind: "CreateTopic", Name: sT1}),
+			subStep(&SubReq{Name: sS0, Topic: sT0, DL: dl(sT1, 2), Retry: retry(time.Second)}),
+			subStep(&SubReq{Name: sS1, Topic: sT1}), subStep(&SubReq{Name: sS2, Topic: sT1}),
+			pubStep(sT0, "", ""), pullStep(sS0, 10), twice, pastLeases(sS0), pullStep(sS0, 10), twice,
+			pullStep(sS1, 10), pullStep(sS2, 10), pullStep(sS0, 10),
+		}
+	},
+	// an ordered subscription with a dead-letter policy: A acknowledged, B dead-lettered, C
+	// acknowledged (one key), then a seek back: the whole chain comes back, in order (C05, C13)
+	"ordered-dl-seek": func(g *Gen) []scriptStep {
+		return []scriptStep{
+			opStep(&Op{Kind: "CreateTopic", Name: sT0}), opStep(&Op{Kind: "CreateTopic", Name: sT1}),
+			subStep(&SubReq{Name: sS0, Topic: sT0, DL: dl(sT1, 1), Retry: retry(time.Second), Ordered: true}),
+			subStep(&SubReq{Name: sS1, Topic: sT1}),
+			opStep(&Op{Kind: "CreateSnap", Name: "projects/p/snapshots/n0", Name2: sS0}),
+			pubStep(sT0, "k1", "k1", "k1"),
+			pullStep(sS0, 10), ackLeased(sS0, "Ack", 0, false), // A
+			pullStep(sS0, 10), pastLeases(sS0), pullStep(sS0, 10), // B: attempt 1, lapses, dead-lettered
+			pullStep(sS0, 10), ackLeased(sS0, "Ack", 0, false), // C
+			func(g *Gen, d *Dump, vnow int64) Action {
+				if g.chance(0.5) {
+					return Action{Op: &Op{Kind: "SeekSnap", Name: sS0, Name2: "projects/p/snapshots/n0"}}
+				}
+				return Action{Op: &Op{Kind: "SeekTime", Name: sS0, Target: vnow - int64(time.Hour)}}
+			},
+			pullStep(sS0, 10), ackLeased(sS0, "Ack", 0, false), pullStep(sS0, 10), ackLeased(sS0, "Ack", 0, false), pullStep(sS0, 10),
+		}
+	},
+	// routing by filters whose reading is easy to get wrong in a shortcut: chains of three OR / AND
+	// terms matched by a later term only, escapes in literals, deep parentheses, an attribute
+	// named like a keyword in lower case (C01, C02, C07)
+	"filter-routing": func(g *Gen) []scriptStep {
+		fl := []string{`attributes.kind = "order" OR attributes.kind = "refund" OR attributes:urgent`,
+			`attributes:a AND attributes:b AND attributes:c`, `attributes.path = "C:\\tmp"`, "attributes.k = \"\\u00e9\"",
+			`(((((((((attributes.kind = "wanted")))))))))`, `attributes:or`, `NOT attributes:a OR attributes:b OR attributes:c`}
+		s := []scriptStep{opStep(&Op{Kind: "CreateTopic", Name: sT0})}
+		for i, f := range fl {
+			s = append(s, subStep(&SubReq{Name: fmt.Sprintf("projects/p/subscriptions/f%d", i), Topic: sT0, Filter: f}))
+		}
+		msg := func(attrs map[string]string) scriptStep {
+			return func(g *Gen, d *Dump, vnow int64) Action {
+				return Action{Op: &Op{Kind: "Publish", Name: sT0, Msgs: []PubMsg{{Data: []byte(`{"a":1}`), Attrs: attrs}}}}
+			}
+		}
+		s = append(s, msg(map[string]string{"kind": "refund"}), msg(map[string]string{"urgent": "1"}), msg(map[string]string{"kind": "order"}),
+			msg(map[string]string{"a": "1", "b": "1"}), msg(map[string]string{"a": "1", "b": "1", "c": "1"}), msg(map[string]string{"c": "1"}),
+			msg(map[string]string{"path": `C:\tmp`}), msg(map[string]string{"path": `C:\\tmp`}), msg(map[string]string{"k": "é"}), msg(map[string]string{"k": `\u00e9`}),
+			msg(map[string]string{"kind": "wanted"}), msg(map[string]string{"or": "1"}), msg(map[string]string{"OR": "1"}), msg(nil))
+		for i := range fl {
+			s = append(s, pullStep(fmt.Sprintf("projects/p/subscriptions/f%d", i), 20))
+		}
+		return s
+	},
 	"dl-self-loop": func(g *Gen) []scriptStep {
 		return []scriptStep{
 			opStep(&Op{Kind: "CreateTopic", Name: sT0}),
@@ -681,7 +746,7 @@ var genScenarios = map[string]func(g *Gen) []scriptStep{
 	"seek-revive-late": func(g *Gen) []scriptStep {
 		return []scriptStep{
 			opStep(&Op{Kind: "CreateTopic", Name: sT0}),
-			subStep(&SubReq{Name: sS0, Topic: sT0, MsgTTL: dptr(90 * time.Second), Ordered: g.chance(0.3)}),
+			subStep(&SubReq{Name: sS0, Topic: sT0, MsgTTL: dptr(90 * time.Second), Ordered: true}),
 			pubStep(sT0, "", "k1"), pullStep(sS0, 10), ackLeased(sS0, "Ack", 0, false),
 			advStep(60 * time.Second),
 			func(g *Gen, d *Dump, vnow int64) Action {
@@ -690,6 +755,9 @@ var genScenarios = map[string]func(g *Gen) []scriptStep{
 			pullStep(sS0, 1),
 			advStep(40 * time.Second), // past publish + retention, before seek + retention
 			pullStep(sS0, 10),
+			// a same-key publish now: its predecessor is the revived delivery (outstanding, retention
+			// restarted by the seek), although that one was published more than one retention ago
+			pubStep(sT0, "k1"), pullStep(sS0, 10),
 			advStep(45 * time.Second), pullStep(sS0, 10),
 			advStep(20 * time.Second), pullStep(sS0, 10),
 		}
@@ -777,11 +845,14 @@ var genScenarios = map[string]func(g *Gen) []scriptStep{
 			ackLeased(sS0, "ModAck", int32(1+g.r.Intn(5)), true),
 			advStep(8 * time.Second), pullStep(sS0, 10),
 			ackLeased(sS0, "ModAck", 600, true), ackLeased(sS0, "ModAck", 0, false), pullStep(sS0, 10),
+			// a lease extended far out and then NACKED (stream / push path): the nack decides, the message
+			// is due after the retry backoff, not at the extended deadline
+			ackLeased(sS0, "ModAck", 300, false), ackLeased(sS0, "Nack", 0, false), advStep(45 * time.Second), pullStep(sS0, 10),
 		}
 	},
 }
 
-var scenarioNames = []string{"ordered-replay", "ordered-prune", "snapshot-sibling-acks", "retry-replaced", "dl-then-prune-messages", "prune-expired-minage", "nack-mixed-attempts", "nack-after-ack-dl", "dl-shared-target", "dl-self-loop", "filter-literals", "ttl-raised", "prune-topics-batch-one", "dl-deleted-topic", "dl-ordered-target", "dl-ordered-sweep", "dl-filtered-target", "snapshot-bystander", "snapshot-bystander-rev", "seek-revive-late", "idle-expired-live", "filter-replaced", "ordered-chain", "lease-changes", "ack-mixed-stale", "nack-cross-subs", "recreated-twice", "seek-delayed"}
+var scenarioNames = []string{"ordered-replay", "ordered-prune", "snapshot-sibling-acks", "retry-replaced", "dl-then-prune-messages", "prune-expired-minage", "nack-mixed-attempts", "nack-after-ack-dl", "dl-shared-target", "dl-self-loop", "filter-literals", "ttl-raised", "prune-topics-batch-one", "dl-deleted-topic", "dl-ordered-target", "dl-ordered-sweep", "dl-filtered-target", "snapshot-bystander", "snapshot-bystander-rev", "seek-revive-late", "idle-expired-live", "filter-replaced", "ordered-chain", "lease-changes", "ack-mixed-stale", "nack-cross-subs", "recreated-twice", "seek-delayed", "nack-duplicate-id", "ordered-dl-seek", "filter-routing"}
 
 // scenariosFor lists the templates a generator profile may start with
 func scenariosFor(profile string) []string {
